@@ -33,7 +33,7 @@ func c09MoreSpecs() []*edt.Spec {
 			Pkg: "primitives/ed25519", Func: "(*BatchVerifier).Verify", SymLoops: true, Opaque: []string{"BatchVerifier.VerifyBatchOnly"}, MinPaths: 25,
 			Abbrev: [][2]string{
 				{"(φL1.1 + 1)", "IDX"}, {"(φL0.0 + 1)", "LJ"}, {"$v.entries[IDX]", "E"},
-				{"sel(havoc@L1(local), [IDX])", "VALID_I"},
+				{"sel(havoc@L1(M<[]bool>#0), [IDX])", "VALID_I"},
 				{"BatchVerifier.VerifyBatchOnly($v, $rand)", "BATCHONLY"}, {"BatchVerifier.VerifyBatchOnly($rand)", "BATCHONLY"},
 			},
 			Vars: vars,
